@@ -24,7 +24,8 @@ CLAIMED = {
         text="TLC proves the timing invariants on the timed composition for scaled hold-time pairs (finite state space, no "
              "constraint); the conformance step shows the real FSM emits exactly the timer commands of the model for the real "
              "values {0,3,30,65535,...} and that the real driver arms tokio timers exactly as ArmHold/ArmKa say.",
-        note="Trusted: tokio Sleep fires at its deadline; virtual time is scaled (unit-free arithmetic)."),
+        note="Trusted: tokio Sleep fires at its deadline; virtual time is scaled (unit-free arithmetic). The driver binding runs "
+             "one connection per script through the real rx_msg / timer-expiry arm / flush_tx and reads the Sleep deadlines."),
 }
 
 RIB_NOTE = ("Trusted: TLC; the projection in harness/lib/src/bin/rib_replay.rs (public Table API only); the attribute-class table "
@@ -108,7 +109,9 @@ CLAIMED.update({
              "handle_prefix_update, flush_tx, do_route_refresh), the decoded Adj-RIB-In compared after every step, then the "
              "session is drained and compared with a brand-new session on the same RIB.",
         note="Trusted: TLC; the decoder used for the mirror (the repository's own PeerCodec); ranking reduced to router-id order; "
-             "export policy empty; conformance is sampled (random walks), the design check exhaustive within the constants."),
+             "half of the replayed behaviours run under a per-neighbour export policy (rejecting one class) that disagrees with the "
+             "global one, and with announcements the import policy rejects; conformance is sampled (random walks), the design "
+             "check exhaustive within the constants."),
 })
 
 CLAIMED.update({
@@ -165,7 +168,8 @@ CLAIMED.update({
                   "case by case with the real PeerFsm, negotiate_gr/llgr, accept_connection and IpNet::contains",
         text="Admission: the model is checked exhaustively (16k states quick, 15M thorough) and 250 (2500) random behaviours of up "
              "to 25 (30) steps are replayed on the real code with the result of every call and the neighbour table compared. "
-             "Negotiation: all 26,005 capability-list pairs of the table from both ends. Session parameters: 120 configurations. "
+             "Negotiation: all 26,005 capability-list pairs of the table from both ends. Session parameters: 120 configurations; "
+             "peer-group inheritance (Inherit.tla): 16,384 combinations of fields set by the neighbour / by its group. "
              "Prefix containment: 1,280 cases x 8 embeddings.",
         note="Trusted: the transcription of the statement into the tables; the single-threaded test runtime realises the model's "
              "interleavings (the harness does not yield between a close signal and the model's `end` step). IPv6 sessions are not "
@@ -207,7 +211,8 @@ CLAIMED.update({
                   "complete interleavings replayed on the real TableManager with real OS threads parked at cfg-guarded scheduling "
                   "points before every shard-lock acquisition; per-step RIB comparison and final fold-vs-RIB comparison",
         text="Exhaustive in the model for 5 configurations (2 session threads x 1-3 calls, with/without session end, 1-2 subscribers, "
-             "2 shards, 3 keys, pre/post-policy views); 300 (2000) complete interleavings replayed on the real code.",
+             "2 shards, 3 keys, pre/post-policy views); 1250 (2500) complete interleavings replayed on the real code, every other one "
+             "with a next hop reported unreachable; the real RIB is compared with the model after every step.",
         note="Trusted: the placement of the scheduling points (a change confined inside one critical section is seen only through "
              "the final comparison). Peer-up/peer-down pairing in bmp.rs is not covered."),
 })
@@ -220,7 +225,8 @@ CLAIMED.update({
                   "constructor); the request stream is drained and folded after every operation and compared with the model",
         text="500 (3000) random behaviours of up to 30 (40) operations over 2 prefixes, 3 peers, tie/win/lose attribute classes, shared "
              "next hops, import rejection, stale / LLGR marking and purges and reachability flips; per step the folded FIB and the "
-             "registration counts are compared.  IPv4 unicast only; VRF installation and soft-reset next-hop changes not covered.",
+             "registration counts are compared.  Soft reset IN under a next-hop-setting import policy is one of the operations.  IPv4 unicast only; VRF "
+             "installation not covered.",
         note="Trusted: Rib.tla's decision process (validated against the real table by C02/C06) and the fold of the request stream."),
 })
 
